@@ -156,7 +156,7 @@ func verifDir() string {
 	return "/verif"
 }
 
-func runTask(eng *Engine, t *Task, solverBin string, timeout time.Duration, unwind int, sampleOK int, second string, verbose bool) (tr TaskResult) {
+func runTask(eng *Engine, t *Task, solverBin string, timeout time.Duration, unwind int, sampleOK int, second string, verbose bool, labelPrefix ...string) (tr TaskResult) {
 	tr.Task = t
 	t0 := time.Now()
 	sol, err := NewSolver(solverBin, timeout)
@@ -179,6 +179,9 @@ func runTask(eng *Engine, t *Task, solverBin string, timeout time.Duration, unwi
 		unwind: unwind, presets: t.Presets, funcs: map[*ssa.Function]bool{}, maxConcr: 64, verbose: verbose, stubs: t.Stubs, sampleOK: sampleOK, second: second,
 		stepCap: 50_000_000, opts: map[string]bool{}}
 	in.slowMs = envInt("VERIF_SLOWQ", 0)
+	if len(labelPrefix) > 0 {
+		in.labelPrefix = labelPrefix[0]
+	}
 	if verbose || os.Getenv("VERIF_FORKSITES") != "" {
 		in.forkSites = map[string]int{}
 		defer func() {
@@ -228,6 +231,7 @@ type violation struct {
 	Replay  string
 	Native  string // outcome of the native replay
 	Second  string
+	EngineOnly bool
 }
 
 func loadConfig() (*Config, []KnownFinding, error) {
@@ -441,7 +445,7 @@ func cmdCheck(args []string) int {
 				dmu.Lock()
 				running[i] = time.Now()
 				dmu.Unlock()
-				results[i] = runTask(eng, tasks[i], solverBin, timeout, unwind, sampleOK, second, verbose)
+				results[i] = runTask(eng, tasks[i], solverBin, timeout, unwind, sampleOK, second, verbose, ck.Prefix)
 				dmu.Lock()
 				delete(running, i)
 				doneN++
